@@ -72,6 +72,7 @@ impl FlushWorker {
             let flush_task = tokio::spawn(async move {
                 let _inflight_guard = inflight_guard;
                 let was_empty = memtable.is_empty();
+                let wal_keep_from = lifecycle.take_wal_cutoff(segment_id).await;
 
                 if tracing::enabled!(tracing::Level::INFO) {
                     info!(
@@ -205,17 +206,21 @@ impl FlushWorker {
                         // Note: Passive buffer is now empty and will be filtered out by
                         // PassiveBufferSet::non_empty() in subsequent queries
 
-                        // Clean up WAL files
-                        if tracing::enabled!(tracing::Level::DEBUG) {
-                            debug!(
-                                target: "sneldb::flush",
-                                shard_id,
-                                wal_cutoff = segment_id + 1,
-                                "Cleaning up WAL files"
-                            );
+                        // Clean up WAL files: only logs below the boundary recorded when this
+                        // memtable was rotated hold nothing but flushed events. Without a
+                        // recorded boundary nothing is known about the logs, so they are kept.
+                        if let Some(keep_from) = wal_keep_from {
+                            if tracing::enabled!(tracing::Level::DEBUG) {
+                                debug!(
+                                    target: "sneldb::flush",
+                                    shard_id,
+                                    wal_cutoff = keep_from,
+                                    "Cleaning up WAL files"
+                                );
+                            }
+                            let cleaner = WalCleaner::new(shard_id);
+                            cleaner.cleanup_up_to(keep_from);
                         }
-                        let cleaner = WalCleaner::new(shard_id);
-                        cleaner.cleanup_up_to(segment_id + 1);
                     }
                 }
 
